@@ -27,7 +27,7 @@ RULE = ('well-formed images of ten formats built from layouts with the declared 
         'virtual_size sampled after every chunk. Also streams without the size structure (truncated before it, VMDK '
         'text descriptors, non-primary ISO descriptors). non-trivial = declared size != 0 or a no-structure stream; '
         'distinct by (stream digest, schedule digest)')
-REQUIRED_CLAUSES = ['accessor-results-owned-by-caller', 'size-under-carrier-and-constructor-options', 'final-size', 'prefix-before-lo-is-0', 'prefix-after-hi-is-declared', 'prefix-between-0-or-declared',
+REQUIRED_CLAUSES = ['vhdx-metadata-region-beyond-4GiB', 'under-warnings-as-errors', 'accessor-results-owned-by-caller', 'size-under-carrier-and-constructor-options', 'final-size', 'prefix-before-lo-is-0', 'prefix-after-hi-is-declared', 'prefix-between-0-or-declared',
                     'no-structure-stays-0', 'wrapper-final-size']
 ASSUMPTIONS = ['the generator writes layouts from the public format descriptions (no qemu-img available to cross-check)']
 INTERPRETER_FLAGS = [[], ['-O'], [], ['-bb']]
@@ -161,8 +161,57 @@ def eval_case(ctx, case):
                          {'got': got, 'want': [name, declared], 'mode': how})
 
 
-def evaluate(ctx, case):
-    eval_case(ctx, case)
+def eval_far(ctx, case):
+    """A VHDX whose metadata region lies beyond 4 GiB (every offset field of the format is 64 bits wide): the stream is
+    presented as head + zero chunks (one reused 16 MiB bytes object) + metadata region, never held in memory as a whole."""
+    import struct
+    F = sl.fi()
+    small = 1024 * 1024
+    spec = {'gen': 'vhdx', 'params': {'meta_off': small, 'tail': 4096, 'size': case['size'], 'n_pad_meta': case.get('n_pad_meta', 0)}}
+    data, truth = ig.build(spec)
+    head, tail = bytearray(data[:small]), data[small:]
+    big = case['meta_off']
+    needle, n = struct.pack('<Q', small), 0
+    i = head.find(needle, 192 * 1024)
+    while i >= 0:
+        head[i:i + 8] = struct.pack('<Q', big)
+        n += 1
+        i = head.find(needle, i + 8)
+    if n == 0:
+        ctx.inconclusive_because('far-metadata case: region table offset field not found in the generated image')
+        return
+    insp = F.ALL_FORMATS['vhdx']()
+    zero = bytes(16 * 1024 * 1024)
+    raised = None
+    try:
+        for a in range(0, len(head), case['chunk']):
+            insp.eat_chunk(bytes(head[a:a + case['chunk']]))
+        left = big - len(head)
+        while left > 0:
+            k = min(left, len(zero))
+            insp.eat_chunk(zero if k == len(zero) else zero[:k])
+            left -= k
+        for a in range(0, len(tail), case['chunk']):
+            insp.eat_chunk(tail[a:a + case['chunk']])
+        insp.finish()
+        got = insp.virtual_size
+    except BaseException as e:  # noqa
+        raised, got = e, None
+    ctx.case(('far', big, case['size'], case['chunk']))
+    ctx.clause('vhdx-metadata-region-beyond-4GiB')
+    if raised is not None or got != case['size']:
+        ctx.fail('vhdx-metadata-region-beyond-4GiB', case, {'got': got, 'declared': case['size'], 'exc': raised,
+                                                             'metadata_region_offset': big})
+
+
+def _dispatch(ctx, case):
+    if case.get('kind') == 'far':
+        return eval_far(ctx, case)
+    return eval_case(ctx, case)
+
+
+from vlib import envmodes  # noqa: E402
+evaluate = envmodes.with_modes(_dispatch, warn=lambda case: case.get('kind') != 'far', share_warn=4)
 
 
 def no_structure_specs(rng):
@@ -239,7 +288,11 @@ def run(ctx):
                                                                  bucket(spec['params']['n_pad_region'])))
         ctx.sample('wellformed/%s' % fmt, {'spec': spec, 'declared': truth['size'], 'lo': truth['lo'], 'hi': truth['hi'],
                                             'schedule_classes': [s[0] for s in scheds]})
-        eval_case(ctx, case)
+        evaluate(ctx, case)
+    for k, (off, size) in enumerate([((4 << 30) + (1 << 20), 0x123456789a), ((4 << 30) + (5 << 20), 1 << 40), ((8 << 30) + (3 << 20), 77777777)]):
+        idx += 1
+        if (k == 0 or not ctx.quick) and ctx.mine(idx):
+            evaluate(ctx, {'kind': 'far', 'meta_off': off, 'size': size, 'chunk': 65536})
     rng2 = ctx.rng('nostructure')
     for rep in range(ctx.pick(12, 300)):
         for spec in no_structure_specs(rng2):
